@@ -311,8 +311,12 @@ class _FakeSocket:
 
     # UDP
     def recvfrom(self, n):
-        data, src = CTX.ep.inbox.pop(0)
-        return data, (src, 500)
+        inbox = CTX.ep.inbox
+        # entries are (data, source) or (data, source, destination): with several sockets readable in one pass each socket
+        # reads what was sent to its own address
+        i = next((k for k, e in enumerate(inbox) if len(e) < 3 or e[2] is None or str(e[2]) == str(self.addr[0])), 0)
+        e = inbox.pop(i)
+        return e[0], (e[1], 500)
 
     def sendto(self, data, dst):
         CTX.ep.sendto(self.addr[0], dst, bytes(data))
@@ -348,13 +352,13 @@ def _fake_select(rlist, wlist, xlist, timeout=None):
         want = CTX.readable
     if want is None:
         return [], [], []
-    kind, addr = want
+    wants = want if isinstance(want, list) else [want]     # a list: several sockets are readable in the same pass
     out = []
-    for s in rlist:
-        if getattr(s, 'kind', None) == kind and (kind != 'udp' or s.addr[0] == addr):
-            out.append(s)
-    if not out:
-        raise RuntimeError('harness: no fake socket matches %r' % (want,))
+    for kind, addr in wants:
+        hit = [s for s in rlist if getattr(s, 'kind', None) == kind and (kind != 'udp' or s.addr[0] == addr)]
+        if not hit:
+            raise RuntimeError('harness: no fake socket matches %r' % ((kind, addr),))
+        out += [s for s in hit if s not in out]
     return out, [], []
 
 
